@@ -1079,13 +1079,13 @@ fn main() {
         let fcombos: usize = genvcf::format_combos(false).iter().map(|(n, t)| format!("format[{}x{}]", n.class(), t.text())).collect::<BTreeSet<_>>().iter().filter(|k| get(k) > 0).count();
         rep.floor("format Number x Type classes covered", fcombos as u64, 24);
         for k in ["headers_other_unstructured_equal_copies[2]", "headers_other_unstructured_equal_copies[3+]", "headers_other_unstructured_equal_copies[adjacent]", "headers_other_unstructured_equal_copies[separated]", "headers_other_unstructured_same_key_distinct_values", "headers_other_structured_equal_fields"] {
-            rep.floor(k, get(k), 50);
+            rep.floor(k, get(k), if ctx.param("header_cases").is_none() { 50 } else { 1 });
         }
         rep.floor("headers_write_parse_write", get("headers_write_parse_write"), get("headers") * 9 / 10);
         for minor in 2..=5 {
             for k in ["gt_mixed_separators", "gt_last_phased_earlier_unphased", "gt_last_unphased_earlier_phased"] {
                 let k = format!("{k}[4.{minor}]");
-                rep.floor(&k, get(&k), 40);
+                rep.floor(&k, get(&k), if ctx.param("cases").is_none() { 40 } else { 1 });
             }
         }
         rep.floor("adjacent_rich_then_minimal", get("adjacent_rich_then_minimal"), recs / 40);
